@@ -69,3 +69,16 @@ def crash_witness(c, wd, prop):
                 c.known(f["id"], "%s [%s] witness: axv crash --seed 7 --unsafe-checkpoints (first rejected crash read: %s)" % (f["what_fails"], f["call_site"], (r.error_text or "")[:160]))
             else:
                 c.notes.append("recorded finding %s no longer reproduces (stale entry?)" % f["id"])
+    # Witness of StealNotCrashSafe: a cache of 16 pages against a table of ~30, so that dirty pages are written back (stolen)
+    # between checkpoints; validated with the as-built deviations.  A rejection shows the finding is still there.
+    tp = os.path.join(wd, "steal-witness.ndjson")
+    axv(["crash", "--seed", 4, "--segments", 2, "--points", 90, "--nested", 2, "--steal", "--out", tp, "--dir", os.path.join(wd, "sw")], timeout=1200)
+    cfg = write_cfg(os.path.join(wd, "DbTrace-steal.cfg"), "TSpec", {"Dev": tla_set(dbcheck.AS_BUILT)}, invariants=["UniqueHolds"], postcondition="Accepted")
+    r = run_tlc("DbTrace", cfg, workers=1, dfs=True, env={"TRACE": tp}, timeout=900, name="DbTrace-stealwitness")
+    rejected = not (r.ok and not r.postcondition_false)
+    for f in vlib.load_known():
+        if f["id"] == "StealNotCrashSafe" and (f["property"] == prop or prop in f.get("also_affects", [])):
+            if rejected:
+                c.known(f["id"], "%s [%s] witness: axv crash --seed 4 --segments 2 --steal (first rejected crash read: %s)" % (f["what_fails"], f["call_site"], (r.error_text or "")[:160]))
+            else:
+                c.notes.append("recorded finding %s no longer reproduces (stale entry?)" % f["id"])
